@@ -8,7 +8,7 @@
 //! `debug_assert*!`, indexing/slicing `x[..]`, the arithmetic operators `-` `/` `%` `<<` `>>` and
 //! their assigning forms) outside `#[cfg(test)]` code and prints `file:line:kind:function`.
 //! The protocol case `sites <file>` answers the per-(function, kind) counts of one file; the Lean
-//! handler `c26-sites`… answers the same request from the table `ParolModel.Panic.panicSites`
+//! handler `sites` (`Panic.sitesHandler`) answers the same request from the table `ParolModel.Panic.panicSites`
 //! (`lean/ParolModel/Model/PanicSites.lean`).  Both replies must be byte-identical: a new, moved
 //! or removed panic site in a modelled file breaks the tie.
 //!
@@ -1311,10 +1311,14 @@ pub fn generate_exploration(seed: u64, thorough: bool) -> Vec<String> {
     }
     // files small enough to run all configurations on their mutants
     let small: Vec<&(String, Vec<u8>)> = files.iter().filter(|f| f.1.len() <= 4000).collect();
-    // (a) byte-level mutations: every file at least once (thorough: 4 times)
-    let rounds = if thorough { 3 } else { 1 };
+    // (a) byte-level mutations (thorough: every file 6 times)
+    let rounds = if thorough { 6 } else { 1 };
     for r in 0..rounds {
         for (i, (_, b)) in files.iter().enumerate() {
+            // quick: every file gets either a byte-level or a token-level mutant (alternating with the seed)
+            if !thorough && (i + seed as usize) % 2 != 0 {
+                continue;
+            }
             let m = mutate_bytes(&mut rng, b);
             let e = enc_bytes(&m);
             let k = 1 + (i + r) % 5;
@@ -1328,7 +1332,7 @@ pub fn generate_exploration(seed: u64, thorough: bool) -> Vec<String> {
         }
     }
     if !small.is_empty() {
-        for _ in 0..if thorough { 150 } else { 40 } {
+        for _ in 0..if thorough { 400 } else { 25 } {
             let f = rng.pick(&small);
             let m = mutate_bytes(&mut rng, &f.1);
             push_all_configs(&mut out, &m, &all_k, true, false);
@@ -1337,6 +1341,9 @@ pub fn generate_exploration(seed: u64, thorough: bool) -> Vec<String> {
     // (b) token-level mutations
     for r in 0..rounds {
         for (i, (_, b)) in files.iter().enumerate() {
+            if !thorough && (i + seed as usize) % 2 == 0 {
+                continue;
+            }
             let s = String::from_utf8_lossy(b);
             let m = mutate_tokens(&mut rng, &s);
             let e = enc_bytes(m.as_bytes());
@@ -1351,7 +1358,7 @@ pub fn generate_exploration(seed: u64, thorough: bool) -> Vec<String> {
         }
     }
     if !small.is_empty() {
-        for _ in 0..if thorough { 150 } else { 40 } {
+        for _ in 0..if thorough { 400 } else { 25 } {
             let f = rng.pick(&small);
             let m = mutate_tokens(&mut rng, &String::from_utf8_lossy(&f.1));
             push_all_configs(&mut out, m.as_bytes(), &all_k, true, false);
@@ -1360,10 +1367,10 @@ pub fn generate_exploration(seed: u64, thorough: bool) -> Vec<String> {
     // (c) structured valid grammars, every combination of the prolog flags
     let nflags = FLAG_NAMES.len();
     let combos = 1usize << nflags;
-    let n = if thorough { combos * 2 } else { combos / 2 };
+    let n = if thorough { combos * 3 } else { combos / 4 };
     for i in 0..n {
-        // quick: every second combination per run, offset by the seed so that all are reached
-        let flags = if thorough { i % combos } else { (2 * i + (seed as usize & 1)) % combos };
+        // quick: every fourth combination per run, offset by the seed so that all are reached
+        let flags = if thorough { i % combos } else { (4 * i + (seed as usize & 3)) % combos };
         let symbols = i % 3 != 0;
         let g = structured_grammar(&mut rng, flags, symbols, false);
         let ks: Vec<usize> = if thorough { all_k.to_vec() } else { vec![1 + i % 5] };
